@@ -106,11 +106,16 @@ def gen_c03(ch, spec):
     # follow-up negotiations that add media / a data channel, possibly swapping the offering side
     for _ in range(ch.choice("wl", [0, 0, 1, 1, 2])):
         who = ch.choice("wl", ["A", "B"])
-        what = ch.choice("wl", ["media", "media", "dc"])
+        what = ch.choice("wl", ["media", "media", "dc", "direction"])
         # eager: the follow-up starts right away, while ICE / DTLS of the round before may still be connecting
         op = {"op": "renegotiate", "side": who, "add": what, "eager": ch.chance("wl", 0.35)}
         if what == "media":
             op["item"] = gen_items(ch, 1)[0]
+        if what == "direction":
+            # an already negotiated transceiver changes direction for the next round, possibly after being stopped
+            op["idx"] = ch.index("wl", 4)
+            op["stop"] = ch.chance("wl", 0.4)
+            op["direction"] = "inactive" if op["stop"] else ch.choice("wl", ["sendrecv", "sendonly", "recvonly", "inactive"])
         ops.append(op)
     return cfg, ops
 
@@ -491,6 +496,19 @@ class C03World(PcWorld):
             try:
                 if op["add"] == "dc":
                     self.ep[who].add_channel("dc-%s-%d" % (who, round_no))
+                elif op["add"] == "direction":
+                    ts = [t for t in self.ep[who].pc.getTransceivers() if t.mid is not None]
+                    if not ts:
+                        continue
+                    t = ts[op["idx"] % len(ts)]
+                    if op.get("stop"):
+                        exc, _ = await self.call(who, t.stop)
+                        if exc is not None:
+                            self.violation("C03", "transceiver-stop-raised:" + exc_tag(exc), repr(exc))
+                            return
+                        self.probes["transceivers_stopped_between_rounds"] += 1
+                    self.ep[who].ctx.run(setattr, t, "direction", op["direction"])
+                    self.probes["directions_changed_between_rounds"] += 1
                 else:
                     self.ep[who].add_item(op["item"])
             except Exception as exc:  # noqa
